@@ -67,6 +67,9 @@ def build(tr, H, expanded=False):
         if name in ("e", "g"):
             return [H.HTMLDependency(name, ver, source={"subdir": "lib src"}, script=[{"src": "a b.js"}, {"src": "c.js", "defer": ""}],
                                      stylesheet={"href": "s t.css"}, meta={"name": "m", "content": "c"}, head=H.tags.title("h"))]
+        if name == "n":
+            # no source location: nothing to prefix, but item paths still get URL-quoted on the way out
+            return [H.HTMLDependency(name, ver, script=[{"src": "my widget.js"}], stylesheet={"href": "a%b é.css"})]
         return [H.HTMLDependency(name, ver)]
     if f == "R":
         return [gamma.ReprObj("<r/>")]
@@ -421,7 +424,7 @@ def rand_tree(rnd, maxnodes, with_tfy=True, depth=0, counter=None, root=True):
     if kind == "M":
         return {"f": "M"}
     if kind == "D":
-        return {"f": "D", "name": rnd.choice(["d@1.0", "d@1.10", "e@2", "f@0.1"])}
+        return {"f": "D", "name": rnd.choice(["d@1.0", "d@1.10", "e@2", "f@0.1", "n@1"])}
     if kind == "R":
         return {"f": "R"}
     kids = []
@@ -438,7 +441,7 @@ def rand_tree(rnd, maxnodes, with_tfy=True, depth=0, counter=None, root=True):
         elif mode == "dep":
             kids = [{"f": "D", "name": "g@3"}]
         return {"f": "F", "mode": mode, "kids": kids}
-    name = rnd.choice(["div", "span", "p", "b", "html", "body", "head", "ul", "br"]) if not root else rnd.choice(["div", "span", "html", "body", "section"])
+    name = rnd.choice(["div", "span", "p", "b", "html", "body", "head", "ul", "br", "script", "style"]) if not root else rnd.choice(["div", "span", "html", "body", "section"])
     attrs = [f"{rnd.choice(['a', 'class', 'id', 'lang'])}={rnd.choice(['1', 'x y', ''])}" for _ in range(rnd.choice([0, 0, 1, 2]))]
     attrs = list(dict(a.split("=", 1) for a in attrs).items())
     return {"f": "T", "name": name, "ws": rnd.random() < 0.6, "attrs": [f"{k}={v}" for k, v in attrs], "kids": kids}
